@@ -141,8 +141,19 @@ package meshops
 //@   props C01
 //@ func RemoveNullFaces3DTransformer.Transform frameonly
 //@   props C01
-//@ func RemoveNullFaces3D frameonly
-//@   props C01
+// RemoveNullFaces3D keeps whole triangles of the input, in order, and compacts the vertices: the kept index list
+// is made of index triples of m (so it is well-formed for m and the compaction's preconditions hold).
+//@ func RemoveNullFaces3D
+//@   props C01 C02 C03
+//@   requires modeling.wf(m) && m.topology == modeling.TriangleTopology && has(m.v3Data, attribute)
+//@   returns r
+//@   ensures [C02] result_is_well_formed: modeling.sameLen(r) && modeling.idxOK(r)
+//@   ensures [C03] never_more_corners: len(r.indices) <= len(m.indices) && r.topology == m.topology
+//@   loop 1:
+//@     invariant [C01,C02,C03] kept_so_far: 0 <= i && 3 * i <= len(m.indices) && len(trisToKeep) % 3 == 0 && len(trisToKeep) <= 3 * i && fresh(trisToKeep)
+//@     invariant [C02] kept_indices_are_vertices_of_m: forall j int :: 0 <= j && j < len(trisToKeep) ==> modeling.valInRange(m, trisToKeep[j])
+//@     step [C03] whole_triangles_in_order: len(trisToKeep) == prev(len(trisToKeep)) || (let p = prev(len(trisToKeep)) in
+//@         len(trisToKeep) == p + 3 && trisToKeep[p] == m.indices[3 * prev(i)] && trisToKeep[p + 1] == m.indices[3 * prev(i) + 1] && trisToKeep[p + 2] == m.indices[3 * prev(i) + 2])
 //@ func RemovedUnreferencedVerticesTransformer.Transform frameonly
 //@   props C01
 //@ func RotateAttribute3DTransformer.Transform frameonly
